@@ -378,7 +378,8 @@ func validateAuthReqRedirectURINative(client Client, uri string) error {
 }
 
 func equalURI(url1, url2 *url.URL) bool {
-	return url1.Path == url2.Path && url1.RawQuery == url2.RawQuery
+	return url1.Path == url2.Path && url1.RawQuery == url2.RawQuery &&
+		url1.User.String() == url2.User.String() && url1.Fragment == url2.Fragment
 }
 
 func HTTPLoopbackOrLocalhost(rawURL string) (*url.URL, bool) {
